@@ -20,7 +20,7 @@ META = dict(
     level='proof',
     technique='Coq proof about a transcription of auto_xact_t::extend_xact / post_pred / xact_base_t::verify / the add_xact rule loop (extension = input ++ concat_map over the matching non-generated postings; generated postings never re-match for any number and order of rules; rules only reach later transactions; exact multiplication; the memoised quick matcher equals the full predicate; unbalanced extension rejected) + differential correspondence against ledger',
     level_text='Theorems in coq/Properties/Properties_C16.v are stated for the executable model of extend_xact (snapshot loop skipping the postings made by rules: ITEM_GENERATED without POST_CALCULATED, quick matcher with memo and fallback, amount multiply/copy, flags and state of the new posting, verify when a new posting must balance) inside the journal loop that keeps the rule list in file order and applies it after finalize. The model is tied to the code by running whole generated journals through ledger and through the extracted model and comparing, per transaction, acceptance and error class and, per posting, account, kind, exact rational amount and precision counter, cost, flags and state.',
-    level_note='How extend_xact registers the rule line\'s account the second time is read from the source on every run (Gen/AutoXactRoot.src_extend_realias) and selects the model\'s behaviour and the theorem in force (Properties_C16.generated_posting_account_in_force): with alias expansion active there (the code before /repo 3f98a1d, finding F120) the aliases in force at the transaction hit the account again, the model does the same (realias) and generated_posting_has_line_account_refuted applies; with expansion switched off around the call (the repaired code, /repo 3f98a1d) the alias table never reaches rule lines and generated_posting_has_line_account applies. The oracle always requires the account the line names at the rule\'s place (key rule-line-account-re-aliased). Account names reach the model RESOLVED (master account, apply account, one alias round at the place of the posting / rule line), computed by the harness; that rule lines and postings use the same root (top_account()) is regenerated from the source into Gen/AutoXactRoot.v and required by rule_lines_resolve_like_postings. F33 (rules skipped the postings finalize makes for the second and later commodities of an elided amount) was repaired by /repo e69e5ce; the model follows the fixed code (a posting is skipped only when ITEM_GENERATED without POST_CALCULATED), Properties_C16.journal_extension_every_posting is the full statement and the oracle key elided-commodity-posting-not-matched is a violation. Trusted as C01 (finalize is the C01/C02 model). Regular expressions are restricted to literal, case-insensitive substrings; predicates to account / payee matches and `amount < LIT`, `amount > LIT` under ! & |. Not modelled: rule lines with costs or amount expressions, `$account` and %(format) account names, notes/tags and assert/check lines of a rule, --strict/--pedantic, period transactions.',
+    level_note='How extend_xact registers the rule line\'s account the second time is read from the source on every run (Gen/AutoXactRoot.src_extend_realias) and selects the model\'s behaviour and the theorem in force (Properties_C16.generated_posting_account_in_force): with alias expansion active there (the code before /repo 3f98a1d, finding F120) the aliases in force at the transaction hit the account again, the model does the same (realias) and generated_posting_has_line_account_refuted applies; with expansion switched off around the call (the repaired code, /repo 3f98a1d) the alias table never reaches rule lines and generated_posting_has_line_account applies. The oracle always requires the account the line names at the rule\'s place (key rule-line-account-re-aliased). Account names reach the model RESOLVED (master account, apply account, one alias round at the place of the posting / rule line), computed by the harness; that rule lines and postings use the same root (top_account()) is regenerated from the source into Gen/AutoXactRoot.v and required by rule_lines_resolve_like_postings. F33 (rules skipped the postings finalize makes for the second and later commodities of an elided amount) was repaired by /repo e69e5ce; the model follows the fixed code (a posting is skipped only when ITEM_GENERATED without POST_CALCULATED), Properties_C16.journal_extension_every_posting is the full statement and the oracle key elided-commodity-posting-not-matched is a violation. Trusted as C01 (finalize is the C01/C02 model). Regular expressions are restricted to literal, case-insensitive substrings; predicates to account / payee matches, `amount < LIT`, `amount > LIT` and the constants true / false under ! & | == ?: (numeric constants are left out: post_pred takes `account =~ /F/ == 1` as `== true` while the full predicate raises `Cannot compare a boolean to an amount`, so the same sub-expression is accepted or an error depending on whether another operand sends the rule to the full predicate). Which operators the quick matcher post_pred handles, each with its exact body, is regenerated from src/xact.cc into Gen/PostPred.v on every run (harness/translators/c16_post_pred.py); quick_eval of the model takes a case only when the source has it in the transcribed form, quick_matcher_cases_as_transcribed and quick_match_answers_account_only REQUIRE all seven. Not modelled: rule lines with costs or amount expressions, `$account` and %(format) account names, notes/tags and assert/check lines of a rule, --strict/--pedantic, period transactions.',
     design_ref='DESIGN.md section 7 C16',
     assumptions=['commodities $ EUR AAA CCC in plain styles, every amount written with its commodity\'s usual number of decimals',
                  'account and payee patterns are literal alphanumeric substrings (regex = case-insensitive substring)',
@@ -1232,7 +1232,7 @@ def run(ctx, n_override=None):
     rng = ctx.rng
     res = lib.Result()
     res.rule = ('journals interleaving 0-4 rules (account / payee substring predicates in query and expr syntax, amount comparisons, '
-                '! & | combinations; 1-4 lines: multipliers with 0-8 decimals incl. 0 and negative, fixed amounts, real / (virtual) / '
+                '! & | combinations, and a stream with == ?: true false whose operands are nested two deep - half of them over accounts only, which post_pred answers and memoises, the others with payee / amount operands that send the rule to the full predicate when reached; 1-4 lines: multipliers with 0-8 decimals incl. 0 and negative, fixed amounts, real / (virtual) / '
                 '[balanced] lines, state marks; balancing pairs, virtual-only, deliberately unbalancing, a line without amount; a family mixing real / [balanced] / (virtual) lines in every order whose must-balance lines sum to zero or miss it by a small residue, a missing counter-line or a counter-line in another commodity) with 1-30 '
                 'transactions; blanks, TABs and runs of both between the words of a predicate, before and after the amounts; transactions (plain, elided incl. two commodities, virtual, cost, unbalanced; cleared/pending), `apply account` '
                 'blocks around arbitrary stretches of the file (rules only, transactions only, both, nested once, rule inside and match '
